@@ -48,56 +48,125 @@ func dumpCases(a []string) {
 
 // ---------------------------------------------------------------- extract
 
-// Every fact compares the WHOLE normalised body of a method with the text the model was written against (31 methods
-// and helpers); signatures, receivers, types, constructors and the file set are compared by bin/check S2b.
+// Every fact compares the WHOLE canonical declaration (gofacts.Canon: receiver, signature and body; locals renamed
+// v1, v2, …; white space collapsed) of a method with the canonical text of the source the model was written against —
+// 31 methods and helpers. A renamed local does not break a fact; any inserted, removed or moved statement does.
+// Types, constructors, package variables and the file set are compared by bin/check S2b.
 
-const (
-	declLock   = "var ( wrLocker *wrapLocker ok bool ) "
-	lookupOrMk = "d.locker.Lock() wrLocker, ok = d.lockMap[key] if !ok { wrLocker = &wrapLocker{} d.lockMap[key] = wrLocker } "
-)
-
-// lockBody: Lock/RLock with the count raised before blocking (today) or after the blocking call.
-func lockBody(cnt, blk string, after bool) string {
-	if after {
-		return "{ " + declLock + lookupOrMk + "d.locker.Unlock() wrLocker.rwLocker." + blk + "() wrLocker." + cnt + "++ }"
+func want(src string) string {
+	c, err := gofacts.CanonText(src)
+	if err != nil {
+		fmt.Fprintln(os.Stderr, "extract: bad expectation:", err, src)
+		os.Exit(2)
 	}
-	return "{ " + declLock + lookupOrMk + "wrLocker." + cnt + "++ d.locker.Unlock() wrLocker.rwLocker." + blk + "() }"
+	return c
 }
 
-func unlockBody(decl, cnt, blk string) string {
-	return "{ " + decl + " d.locker.Lock() wrLocker = d.lockMap[key] wrLocker.rwLocker." + blk + "() wrLocker." + cnt + "-- d.tryFree(key, wrLocker) d.locker.Unlock() }"
+func got(f *gofacts.File, recv, name string) string {
+	fd := f.Func(recv, name)
+	if fd == nil {
+		return "<missing>"
+	}
+	return f.Canon(fd)
 }
 
-func getBody(cnt string) string {
-	return "{ var ( wrLocker *wrapLocker ok bool ws []*wrapLocker ) ws = make([]*wrapLocker, len(keys)) d.locker.Lock() for i, key := range keys { wrLocker, ok = d.lockMap[key] if !ok { wrLocker = &wrapLocker{} d.lockMap[key] = wrLocker } wrLocker." + cnt + "++ ws[i] = wrLocker } d.locker.Unlock() return ws }"
+const lookupOrMk = `d.locker.Lock()
+	wrLocker, ok = d.lockMap[key]
+	if !ok {
+		wrLocker = &wrapLocker{}
+		d.lockMap[key] = wrLocker
+	}
+`
+
+// lockSrc: Lock/RLock with the count raised before blocking (today) or after the blocking call.
+func lockSrc(recv, keyT, name, cnt string, after bool) string {
+	head := "func (d *" + recv + ") " + name + "(key " + keyT + ") {\n var (\n wrLocker *wrapLocker\n ok bool\n)\n" + lookupOrMk
+	if after {
+		return head + "d.locker.Unlock()\n wrLocker.rwLocker." + name + "()\n wrLocker." + cnt + "++\n}"
+	}
+	return head + "wrLocker." + cnt + "++\n d.locker.Unlock()\n wrLocker.rwLocker." + name + "()\n}"
 }
 
-func multiUnlockBody(cnt, blk string) string {
-	return "{ var wrLocker *wrapLocker d.locker.Lock() for _, key := range keys { wrLocker = d.lockMap[key] wrLocker.rwLocker." + blk + "() wrLocker." + cnt + "-- d.tryFree(key, wrLocker) } d.locker.Unlock() }"
+func unlockSrc(recv, keyT, decl, name, cnt string) string {
+	return "func (d *" + recv + ") " + name + "(key " + keyT + ") {\n" + decl + "\n d.locker.Lock()\n wrLocker = d.lockMap[key]\n wrLocker.rwLocker." + name +
+		"()\n wrLocker." + cnt + "--\n d.tryFree(key, wrLocker)\n d.locker.Unlock()\n}"
 }
 
-func guardOf(body string) string {
-	switch body {
-	case "{ if wrLocker.readCount == 0 && wrLocker.writeCount == 0 { delete(d.lockMap, key) } }",
-		"{ if wrLocker.writeCount == 0 && wrLocker.readCount == 0 { delete(d.lockMap, key) } }":
-		return "bothZero"
-	case "{ if wrLocker.readCount == 0 { delete(d.lockMap, key) } }":
-		return "readZero"
-	case "{ if wrLocker.writeCount == 0 { delete(d.lockMap, key) } }":
-		return "writeZero"
-	case "{ }":
-		return "never"
+func getSrc(name, cnt string) string {
+	return "func (d *TKeyLocker[T]) " + name + `(keys []T) []*wrapLocker {
+	var (
+		wrLocker *wrapLocker
+		ok       bool
+		ws       []*wrapLocker
+	)
+	ws = make([]*wrapLocker, len(keys))
+	d.locker.Lock()
+	for i, key := range keys {
+		wrLocker, ok = d.lockMap[key]
+		if !ok {
+			wrLocker = &wrapLocker{}
+			d.lockMap[key] = wrLocker
+		}
+		wrLocker.` + cnt + `++
+		ws[i] = wrLocker
+	}
+	d.locker.Unlock()
+	return ws
+}`
+}
+
+func multiLockSrc(name, get, blk string) string {
+	return "func (d *TKeyLocker[T]) " + name + "(keys []T) {\n var ws = d." + get + "(keys)\n for _, wrLocker := range ws {\n wrLocker.rwLocker." + blk + "()\n }\n}"
+}
+
+func multiUnlockSrc(name, cnt, blk string) string {
+	return "func (d *TKeyLocker[T]) " + name + "(keys []T) {\n var wrLocker *wrapLocker\n d.locker.Lock()\n for _, key := range keys {\n wrLocker = d.lockMap[key]\n wrLocker.rwLocker." + blk +
+		"()\n wrLocker." + cnt + "--\n d.tryFree(key, wrLocker)\n }\n d.locker.Unlock()\n}"
+}
+
+func tryFreeSrc(recv, keyT, cond string) string {
+	body := "if " + cond + " {\n delete(d.lockMap, key)\n }"
+	if cond == "" {
+		body = ""
+	}
+	return "func (d *" + recv + ") tryFree(key " + keyT + ", wrLocker *wrapLocker) {\n" + body + "\n}"
+}
+
+func guardOf(c, recv, keyT string) string {
+	for _, x := range []struct{ cond, kind string }{
+		{"wrLocker.readCount == 0 && wrLocker.writeCount == 0", "bothZero"}, {"wrLocker.writeCount == 0 && wrLocker.readCount == 0", "bothZero"},
+		{"wrLocker.readCount == 0", "readZero"}, {"wrLocker.writeCount == 0", "writeZero"}, {"", "never"}} {
+		if c == want(tryFreeSrc(recv, keyT, x.cond)) {
+			return x.kind
+		}
 	}
 	return "unknown"
 }
 
-const (
-	expMultiLock  = "{ var ws = d.%s(keys) for _, wrLocker := range ws { wrLocker.rwLocker.%s() } }"
-	expGrpLocks   = "{ var ms = w.calculateSortedMultiKeys(keys) var ws = make([]*wrapLocker, 0, len(keys)) for _, ks := range ms { ws = append(ws, w.ls[ks.index].%s(ks.ks)...) } for _, wr := range ws { wr.rwLocker.%s() } }"
-	expGrpUnlocks = "{ var m = w.calculateSortedMultiKeys(keys) for _, ks := range m { w.ls[ks.index].%s(ks.ks) } }"
-	expGrpBuild   = "{ var m = make(map[int][]T) for _, key := range keys { var i = w.calKeyFn(key) m[i] = append(m[i], key) } var ms = make([]multiKeyT[T], 0, len(m)) for i, ks := range m { ms = append(ms, multiKeyT[T]{index: i, ks: ks}) } slices.SortFunc[multiKeyT[T]](ms, func(a, b multiKeyT[T]) bool { return CMP }) return ms }"
-	expCalcKey    = "{ var i = w.calKeyFn(key) return w.ls[i] }"
-)
+func grpLocksSrc(name, get, blk string) string {
+	return "func (w *TKeyLockerGrp[T]) " + name + "(keys []T) {\n var ms = w.calculateSortedMultiKeys(keys)\n var ws = make([]*wrapLocker, 0, len(keys))\n for _, ks := range ms {\n ws = append(ws, w.ls[ks.index]." + get +
+		"(ks.ks)...)\n }\n for _, wr := range ws {\n wr.rwLocker." + blk + "()\n }\n}"
+}
+
+func grpUnlocksSrc(name string) string {
+	return "func (w *TKeyLockerGrp[T]) " + name + "(keys []T) {\n var m = w.calculateSortedMultiKeys(keys)\n for _, ks := range m {\n w.ls[ks.index]." + name + "(ks.ks)\n }\n}"
+}
+
+const grpBuildSrc = `func (w *TKeyLockerGrp[T]) calculateSortedMultiKeys(keys []T) []multiKeyT[T] {
+	var m = make(map[int][]T)
+	for _, key := range keys {
+		var i = w.calKeyFn(key)
+		m[i] = append(m[i], key)
+	}
+	var ms = make([]multiKeyT[T], 0, len(m))
+	for i, ks := range m {
+		ms = append(ms, multiKeyT[T]{index: i, ks: ks})
+	}
+	slices.SortFunc[multiKeyT[T]](ms, func(a, b multiKeyT[T]) bool {
+		return CMP
+	})
+	return ms
+}`
 
 func extract(repo, leanDir string) {
 	kf := gofacts.MustLoad(repo, "syncx/keylock/keylocker.go")
@@ -106,27 +175,27 @@ func extract(repo, leanDir string) {
 	tgf := gofacts.MustLoad(repo, "syncx/keylock/tgroup.go")
 
 	type site struct {
-		f    *gofacts.File
-		recv string
-		decl string // declaration form used by the unlock paths of that file
+		f                *gofacts.File
+		recv, name, keyT string
+		decl             string // declaration form used by the unlock paths of that file
 	}
-	sites := []site{{kf, "KeyLocker", "var ( wrLocker *wrapLocker )"}, {tf, "TKeyLocker", "var wrLocker *wrapLocker"}}
+	sites := []site{{kf, "KeyLocker", "KeyLocker", "interface{}", "var (\n wrLocker *wrapLocker\n)"}, {tf, "TKeyLocker", "TKeyLocker[T]", "T", "var wrLocker *wrapLocker"}}
 	lockShape, unlockShape := true, true
 	var places []string
 	for _, s := range sites {
-		for _, x := range []struct{ name, cnt, blk string }{{"Lock", "writeCount", "Lock"}, {"RLock", "readCount", "RLock"}} {
-			switch b := s.f.Body(s.recv, x.name); b {
-			case lockBody(x.cnt, x.blk, false):
+		for _, x := range []struct{ name, cnt string }{{"Lock", "writeCount"}, {"RLock", "readCount"}} {
+			switch b := got(s.f, s.recv, x.name); b {
+			case want(lockSrc(s.name, s.keyT, x.name, x.cnt, false)):
 				places = append(places, "beforeBlock")
-			case lockBody(x.cnt, x.blk, true):
+			case want(lockSrc(s.name, s.keyT, x.name, x.cnt, true)):
 				places = append(places, "afterBlock")
 			default:
 				places = append(places, "unknown")
 				lockShape = false
 			}
 		}
-		for _, x := range []struct{ name, cnt, blk string }{{"Unlock", "writeCount", "Unlock"}, {"RUnlock", "readCount", "RUnlock"}} {
-			if s.f.Body(s.recv, x.name) != unlockBody(s.decl, x.cnt, x.blk) {
+		for _, x := range []struct{ name, cnt string }{{"Unlock", "writeCount"}, {"RUnlock", "readCount"}} {
+			if got(s.f, s.recv, x.name) != want(unlockSrc(s.name, s.keyT, s.decl, x.name, x.cnt)) {
 				unlockShape = false
 			}
 		}
@@ -135,16 +204,16 @@ func extract(repo, leanDir string) {
 	for _, x := range []struct{ get, cnt, lock, blk, un, unblk string }{
 		{"getWriteLocks", "writeCount", "Locks", "Lock", "Unlocks", "Unlock"},
 		{"getReadLocks", "readCount", "RLocks", "RLock", "RUnlocks", "RUnlock"}} {
-		if tf.Body("TKeyLocker", x.get) == getBody(x.cnt) {
+		if got(tf, "TKeyLocker", x.get) == want(getSrc(x.get, x.cnt)) {
 			places = append(places, "beforeBlock")
 		} else {
 			places = append(places, "unknown")
 			multiGet = false
 		}
-		if tf.Body("TKeyLocker", x.lock) != fmt.Sprintf(expMultiLock, x.get, x.blk) {
+		if got(tf, "TKeyLocker", x.lock) != want(multiLockSrc(x.lock, x.get, x.blk)) {
 			multiLock = false
 		}
-		if tf.Body("TKeyLocker", x.un) != multiUnlockBody(x.cnt, x.unblk) {
+		if got(tf, "TKeyLocker", x.un) != want(multiUnlockSrc(x.un, x.cnt, x.unblk)) {
 			multiUn = false
 		}
 	}
@@ -155,33 +224,37 @@ func extract(repo, leanDir string) {
 		}
 	}
 
-	g1, g2 := guardOf(kf.Body("KeyLocker", "tryFree")), guardOf(tf.Body("TKeyLocker", "tryFree"))
+	g1, g2 := guardOf(got(kf, "KeyLocker", "tryFree"), "KeyLocker", "interface{}"), guardOf(got(tf, "TKeyLocker", "tryFree"), "TKeyLocker[T]", "T")
 	sameTryFree := g1 == g2
 	guard := g1
 	if !sameTryFree {
 		guard = "unknown"
 	}
 
-	grpSingle := gf.Body("KeyLockerGrp", "calculateKey") == expCalcKey && tgf.Body("TKeyLockerGrp", "calculateKey") == expCalcKey
+	grpSingle := true
 	for _, s := range []struct {
-		f    *gofacts.File
-		recv string
-	}{{gf, "KeyLockerGrp"}, {tgf, "TKeyLockerGrp"}} {
+		f                *gofacts.File
+		recv, name, keyT string
+		ret              string
+	}{{gf, "KeyLockerGrp", "KeyLockerGrp", "interface{}", "*KeyLocker"}, {tgf, "TKeyLockerGrp", "TKeyLockerGrp[T]", "T", "*TKeyLocker[T]"}} {
+		if got(s.f, s.recv, "calculateKey") != want("func (w *"+s.name+") calculateKey(key "+s.keyT+") "+s.ret+" {\n var i = w.calKeyFn(key)\n return w.ls[i]\n}") {
+			grpSingle = false
+		}
 		for _, n := range []string{"Lock", "Unlock", "RLock", "RUnlock"} {
-			if s.f.Body(s.recv, n) != "{ w.calculateKey(key)."+n+"(key) }" {
+			if got(s.f, s.recv, n) != want("func (w *"+s.name+") "+n+"(key "+s.keyT+") {\n w.calculateKey(key)."+n+"(key)\n}") {
 				grpSingle = false
 			}
 		}
 	}
-	grpMulti := tgf.Body("TKeyLockerGrp", "Locks") == fmt.Sprintf(expGrpLocks, "getWriteLocks", "Lock") &&
-		tgf.Body("TKeyLockerGrp", "RLocks") == fmt.Sprintf(expGrpLocks, "getReadLocks", "RLock") &&
-		tgf.Body("TKeyLockerGrp", "Unlocks") == fmt.Sprintf(expGrpUnlocks, "Unlocks") &&
-		tgf.Body("TKeyLockerGrp", "RUnlocks") == fmt.Sprintf(expGrpUnlocks, "RUnlocks")
-	build := tgf.Body("TKeyLockerGrp", "calculateSortedMultiKeys")
+	grpMulti := got(tgf, "TKeyLockerGrp", "Locks") == want(grpLocksSrc("Locks", "getWriteLocks", "Lock")) &&
+		got(tgf, "TKeyLockerGrp", "RLocks") == want(grpLocksSrc("RLocks", "getReadLocks", "RLock")) &&
+		got(tgf, "TKeyLockerGrp", "Unlocks") == want(grpUnlocksSrc("Unlocks")) &&
+		got(tgf, "TKeyLockerGrp", "RUnlocks") == want(grpUnlocksSrc("RUnlocks"))
+	build := got(tgf, "TKeyLockerGrp", "calculateSortedMultiKeys")
 	grpSort := "unknown"
 	grpBuild := false
 	for _, c := range []struct{ cmp, kind string }{{"a.index < b.index", "asc"}, {"b.index > a.index", "asc"}, {"a.index > b.index", "desc"}, {"b.index < a.index", "desc"}} {
-		if build == strings.Replace(expGrpBuild, "CMP", c.cmp, 1) {
+		if build == want(strings.Replace(grpBuildSrc, "CMP", c.cmp, 1)) {
 			grpSort, grpBuild = c.kind, true
 		}
 	}
